@@ -10,6 +10,8 @@
 -/
 import Aqv.Base.Proto
 import Aqv.Model.State
+import Aqv.Model.StateRoot
+import Aqv.Base.Keccak
 open Aqv Aqv.Proto Aqv.State
 
 def tracked : List Nat := [1, 2, 3, 4, 5]
@@ -54,6 +56,18 @@ def fingerprint (t : Addr → Option Acct) : String :=
     | some c => toString c.nonce ++ "," ++ toString c.balance ++ "," ++ hexOrDash c.code ++ "," ++
         joinWith "," (slots.map (fun k => toString (c.storage k)))))
 
+/-- Keccak-256 with the (constant) secure-trie keys of the tracked addresses and slots precomputed once. -/
+def keyTable : List (Bytes × Bytes) :=
+  (tracked.map fun a => (addrBytes a, Keccak.keccak256 (addrBytes a))) ++ (slots.map fun k => (slotBytes k, Keccak.keccak256 (slotBytes k)))
+
+def HK (b : Bytes) : Bytes :=
+  match keyTable.find? (fun kv => kv.1 == b) with
+  | some kv => kv.2
+  | none => Keccak.keccak256 b
+
+/-- the real 32-byte state root of a trie content, recomputed independently of the Go code (spec construction, Lean Keccak). -/
+def realRoot (t : Addr → Option Acct) : String := hexOfBytes (stateRootSpec HK tracked slots t)
+
 structure DState where
   cur : SDB
   oth : Option SDB
@@ -65,6 +79,11 @@ def classOf (d : DState) (fp : String) : DState × String :=
   match d.classes.findIdx? (· == fp) with
   | some i => (d, "r" ++ toString i)
   | none => ({ d with classes := d.classes.push fp }, "r" ++ toString d.classes.size)
+
+/-- root observation: content class and the recomputed 32-byte root. -/
+def rootObs (d : DState) (t : Addr → Option Acct) : DState × String :=
+  let (d', c) := classOf d (fingerprint t)
+  (d', c ++ ":" ++ realRoot t)
 
 def parseInt (s : String) : Option Int := s.toInt?
 def parseNat (s : String) : Option Nat := s.toNat?
@@ -115,12 +134,12 @@ def act (d : DState) (a : String) : Option Res :=
   | ["rt", b] =>
     let s' := finalise (b == "1") s
     if s'.fault then some .panic else
-    let (d', c) := classOf d (fingerprint s'.trie)
+    let (d', c) := rootObs d s'.trie
     some (.ok { d' with cur := s' } (c ++ "/" ++ showState s'))
   | ["cm", b] =>
     let s' := commit (b == "1") s
     if s'.fault then some .panic else
-    let (d', c) := classOf d (fingerprint s'.trie)
+    let (d', c) := rootObs d s'.trie
     some (.ok { d' with cur := s', committed := d'.committed.push s'.trie } (c ++ "/" ++ showState s'))
   | ["ro", k] => do
     let k ← parseNat k
@@ -145,7 +164,7 @@ def act (d : DState) (a : String) : Option Res :=
   | ["ne"] =>
     let n := netEffect s
     if n.fault then some .panic else
-    let (d', c) := classOf d (fingerprint n.trie)
+    let (d', c) := rootObs d n.trie
     some (.ok d' (c ++ "/" ++ showState s))
   | _ => none
 
@@ -189,6 +208,36 @@ def copyPart (ob : String) : String :=
   | _ :: _ :: st :: _ => joinWith ";" ((st.splitOn ";").take 8)
   | _ => ""
 
+/-- parse one account of a Go view (`a:-` or `a:nonce,balance,code,S|s,k0,k1,k2`). -/
+def parseAcctView (f : String) : Option (Nat × Option Acct) :=
+  match f.splitOn ":" with
+  | [a, "-"] => a.toNat?.map fun a => (a, none)
+  | [a, rest] =>
+    match rest.splitOn ",", a.toNat? with
+    | [n, b, c, _, k0, k1, k2], some a => do
+      let n ← n.toNat?; let b ← b.toInt?; let c ← bytesOfHex c
+      let k0 ← k0.toNat?; let k1 ← k1.toNat?; let k2 ← k2.toNat?
+      if b < 0 then none else
+      some (a, some { nonce := n, balance := b, code := c, storage := fun k => if k = 0 then k0 else if k = 1 then k1 else if k = 2 then k2 else 0 })
+    | _, _ => none
+  | _ => none
+
+/-- the content a Go observation reports, as a map (none = unparsable / negative balance). -/
+def contentOfObs (ob : String) : Option (Addr → Option Acct) :=
+  match ob.splitOn "/" with
+  | _ :: st :: _ =>
+    ((st.splitOn ";").take 5).foldl (fun acc f =>
+      match acc, parseAcctView f with
+      | some m, some (a, c) => some (upd m a c)
+      | _, _ => none) (some (fun _ => none))
+  | _ => none
+
+/-- the root the specification defines for the content the Go getters report after a root action, vs the root Go returned. -/
+def goRootMatchesSpec (ob : String) : Bool :=
+  match (retPart ob).splitOn ":", contentOfObs ob with
+  | [_, hex], some m => hex == realRoot m
+  | _, _ => true
+
 structure JState where
   curId : Nat := 0
   othId : Option Nat := none
@@ -221,8 +270,11 @@ def judgeStep (j : JState) (a ob : String) : JState :=
     match j.snaps.find? (fun s => s.1 == (j.curId, id)) with
     | some s => if s.2 == viewPart ob then j else bad "revert-not-exact"
     | none => j
-  | ["rt", _] => rootCheck (acctPart ob) (retPart ob)
-  | ["cm", _] => { rootCheck (acctPart ob) (retPart ob) with commits := j.commits.push (acctPart ob) }
+  | ["rt", _] =>
+    if goRootMatchesSpec ob then rootCheck (acctPart ob) (retPart ob) else bad "root-differs-from-stateRootSpec-of-reported-content"
+  | ["cm", _] =>
+    if goRootMatchesSpec ob then { rootCheck (acctPart ob) (retPart ob) with commits := j.commits.push (acctPart ob) }
+    else bad "root-differs-from-stateRootSpec-of-reported-content"
   | ["ro", k] | ["rs", k] =>
     match k.toNat? with
     | some k =>
